@@ -175,16 +175,24 @@ func c15Unfold(x *engine.Exec, cd *Codec, doc, next []byte, entry, tk, full int,
 	entryName := [...]string{"Parser.Write", "ParseReader", "ReaderDecoder", "BytesDecoder"}[entry]
 	// clean reference run
 	cleanT, _ := c15Target(tk)
-	cu, err := gotype.NewUnfolder(cleanT)
-	if err != nil {
-		engine.Fail("c15 target %d: %v", tk, err)
-	}
-	if err := cd.Parse(append([]byte(nil), doc...), cu); err != nil {
-		engine.Fail("c15 document rejected: %v (%q)", err, doc)
+	events := model.NewRecorder()
+	clean := guard(int64(400000+1000*len(doc)), func() error {
+		cu, err := gotype.NewUnfolder(cleanT)
+		if err != nil {
+			return err
+		}
+		if err := cd.Parse(exact(doc), cu); err != nil {
+			return err
+		}
+		return cd.Parse(exact(doc), events)
+	})
+	if clean.Bad() || clean.Err != nil {
+		// the clean whole-buffer run of a valid document into a supported target fails: nothing to compare with
+		x.Case(fmt.Sprintf("clean|%s|%x|%d", cd.Name, doc, tk), true)
+		x.Violation(cd.Name+".Parse->Unfolder", "valid-document-rejected", class, "clean whole-buffer run: "+clean.Panic+errStr(clean.Err), map[string]interface{}{"codec": cd.Name, "doc": trunc(fmt.Sprintf("%q", doc), 160), "target": fmt.Sprintf("%T", cleanT)})
+		return
 	}
 	want := model.Dump(cleanT)
-	events := model.NewRecorder()
-	cd.Parse(doc, events)
 	E := len(events.Evs)
 
 	var chunks [][2]int
